@@ -20,7 +20,7 @@ from vf import gen as G
 from vf import oracle as O
 from vf.harness import exc_fact, tb_short
 from vf.monitors.immut import changed, snapshot
-from vf.props.c03 import Sink, borrowed_case, run_borrowed, SOURCES
+from vf.props.c03 import Sink, borrowed_case, run_borrowed, run_suite, SOURCES
 
 META = {
     "level": "exploration",
@@ -29,7 +29,8 @@ META = {
         "(recursing into lists, tuples, dicts) of every monitored numpoly call and compares them "
         "when the call returns or unwinds; exempt by rule: parameters named out, copyto's dst, "
         "__array_finalize__/__new__. Workloads: the borrowed cases of C01/C02/C05/C06/C19 and the "
-        "operation catalogue (boundary calls in quick, all internal calls in thorough), a direct "
+        "operation catalogue and the repository's own test-suite as workload (boundary calls in "
+        "quick, all internal calls in thorough), a direct "
         "pass calling every catalogue entry and public poly function with already aligned "
         "operands, the same object for both operands, read-only-free views, and arguments that "
         "make the call raise (unknown names, non-broadcastable shapes, duplicate exponents, "
@@ -53,6 +54,7 @@ def shards(tier, seed):
             "deep": tier == "thorough"} for i in range(n)]
     out += [{"kind": "direct", "part": i, "n": 500 if tier == "quick" else 6000} for i in range(2)]
     out.append({"kind": "fault", "part": 0, "n": 40 if tier == "quick" else 400})
+    out.append({"kind": "suite", "part": 0, "deep": tier == "thorough"})
     return out
 
 
@@ -342,11 +344,16 @@ def run_fault(spec, ctx):
 def run(spec, ctx):
     if "replay_case" in spec:
         case = spec["replay_case"]
-        if "source" in case:
+        if case.get("source") == "suite":
+            run_suite(spec, ctx, lambda c: ImmutMonitor(c, False))
+        elif "source" in case:
             run_ride(spec, ctx)
         elif "nth" in case:
             run_fault(dict(spec, n=1), ctx)
         else:
             run_direct(spec, ctx)
+        return
+    if spec["kind"] == "suite":
+        run_suite(spec, ctx, lambda c: ImmutMonitor(c, spec.get("deep", False)))
         return
     {"ride": run_ride, "direct": run_direct, "fault": run_fault}[spec["kind"]](spec, ctx)
